@@ -330,4 +330,7 @@ def coverage(prog, body, src, family, extra_opaque=(), inline=(), vacuous=True, 
         return Cov("once", "exactly one %s on every path (%d path(s))" % (fname, len(counts)), sites or [body.loc()], shape=shape)
     if all(c == 0 for c in counts):
         return Cov("never", "no %s call reaches the source in %s" % (fname, body.qname))
+    if all(c in (0, 1) for c in counts):
+        # all of it on some ways through, none of it on the others (a guarded traversal): never a part, never twice
+        return Cov("some", "%s on every element on %d of %d way(s) through %s, on none on the others" % (fname, sum(counts), len(counts), body.qname), sites or [body.loc()], shape=shape)
     return Cov("bad", "%s call count on normal paths of %s is min %d / max %d (expected exactly 1)" % (fname, body.qname, min(counts), max(counts)), sites or [body.loc()])
